@@ -97,6 +97,31 @@ def _fp_on(st):
     return st.get("fp") is True or st.get("fp") == 1 or (st.get("fp") is None and st["v"] >= 8)
 
 
+def _recursive(prog):
+    """1 if the call graph of the recipe's routines has a cycle (then local variables are spilled around calls)"""
+    rt = prog.get("rt", [])
+    calls = {}
+
+    def walk(nd, acc):
+        if nd["k"] == "Call":
+            acc.add(nd["i"][0])
+        for ch in nd["a"]:
+            walk(ch, acc)
+    for j, r in enumerate(rt, 1):
+        calls[j] = set()
+        walk(r["body"], calls[j])
+    for j in calls:
+        seen, todo = set(), list(calls[j])
+        while todo:
+            x = todo.pop()
+            if x == j:
+                return 1
+            if x not in seen and x in calls:
+                seen.add(x)
+                todo.extend(calls[x])
+    return 0
+
+
 def make_entry(eid, prog, results, cx, dedupe=True):
     """One batch entry from a recipe and its compile results.  Returns (entry, texts_meta).
     Texts compiled without scratch-slot optimisation come first; an optimised text names (cmp) the text of the
@@ -128,7 +153,7 @@ def make_entry(eid, prog, results, cx, dedupe=True):
         texts.append({"teal": [{k: v for k, v in ins.items() if k != "ln"} for ins in te["teal"]],
                       "R": te["R"], "tag": te["tag"], "cmp": cmpk})
         meta.append({"tags": [te["tag"]], "problems": te["problems"], "text": r["teal"], "st": st})
-    entry = {"id": eid, "recipe": {"main": prog["main"], "rt": prog.get("rt", []), "vars": prog.get("vars", [])}, "cx": cx, "texts": texts,
+    entry = {"id": eid, "rec": _recursive(prog), "recipe": {"main": prog["main"], "rt": prog.get("rt", []), "vars": prog.get("vars", [])}, "cx": cx, "texts": texts,
              "vars": prog.get("vars", []), "req": sorted(v["slot"] for v in prog.get("vars", []) if v.get("slot", -1) >= 0)}
     return entry, meta
 
